@@ -950,6 +950,12 @@ func (e *Engine) findIndicesTeddyAt(haystack []byte, at int) (int, int, bool) {
 	return e.findIndicesNFAAt(haystack, pos)
 }
 
+// digitCandidateBudget is the number of failed digit-candidate verifications
+// after which a digit-prefilter search hands over to one unanchored NFA pass.
+// Every verification is an anchored scan that may run to the end of the
+// haystack (\d\w*- on "1111…"), so without a bound n candidates cost n scans.
+const digitCandidateBudget = 16
+
 // findIndicesDigitPrefilter returns indices using digit prefilter - zero alloc.
 func (e *Engine) findIndicesDigitPrefilter(haystack []byte) (int, int, bool) {
 	if e.digitPrefilter == nil {
@@ -963,6 +969,7 @@ func (e *Engine) findIndicesDigitPrefilter(haystack []byte) (int, int, bool) {
 	state := e.getSearchState()
 	defer e.putSearchState(state)
 
+	failedCandidates := 0
 	for pos < len(haystack) {
 		digitPos := e.digitPrefilter.Find(haystack, pos)
 		if digitPos < 0 {
@@ -985,6 +992,11 @@ func (e *Engine) findIndicesDigitPrefilter(haystack []byte) (int, int, bool) {
 			}
 		}
 
+		// Anti-quadratic bound: each failed anchored verification may scan to the end
+		// of the haystack, so after a few of them one unanchored NFA pass decides.
+		if failedCandidates++; failedCandidates > digitCandidateBudget {
+			return state.pikevm.SearchWithSlotTableAt(haystack, digitPos+1, nfa.SearchModeFind)
+		}
 		pos = digitPos + 1
 		// When the leading digit class is greedy unbounded (\d+, \d*), all
 		// positions in the same digit run reach the same DFA state after
@@ -1012,6 +1024,7 @@ func (e *Engine) findIndicesDigitPrefilterAt(haystack []byte, at int) (int, int,
 	state := e.getSearchState()
 	defer e.putSearchState(state)
 
+	failedCandidates := 0
 	for pos < len(haystack) {
 		digitPos := e.digitPrefilter.Find(haystack, pos)
 		if digitPos < 0 {
@@ -1034,6 +1047,11 @@ func (e *Engine) findIndicesDigitPrefilterAt(haystack []byte, at int) (int, int,
 			}
 		}
 
+		// Anti-quadratic bound: each failed anchored verification may scan to the end
+		// of the haystack, so after a few of them one unanchored NFA pass decides.
+		if failedCandidates++; failedCandidates > digitCandidateBudget {
+			return state.pikevm.SearchWithSlotTableAt(haystack, digitPos+1, nfa.SearchModeFind)
+		}
 		pos = digitPos + 1
 		if e.digitRunSkipSafe {
 			for pos < len(haystack) && haystack[pos] >= '0' && haystack[pos] <= '9' {
@@ -1055,6 +1073,7 @@ func (e *Engine) findIndicesDigitPrefilterAtWithState(haystack []byte, at int, s
 	atomic.AddUint64(&e.stats.PrefilterHits, 1)
 	pos := at
 
+	failedCandidates := 0
 	for pos < len(haystack) {
 		digitPos := e.digitPrefilter.Find(haystack, pos)
 		if digitPos < 0 {
@@ -1076,6 +1095,11 @@ func (e *Engine) findIndicesDigitPrefilterAtWithState(haystack []byte, at int, s
 			}
 		}
 
+		// Anti-quadratic bound: each failed anchored verification may scan to the end
+		// of the haystack, so after a few of them one unanchored NFA pass decides.
+		if failedCandidates++; failedCandidates > digitCandidateBudget {
+			return state.pikevm.SearchWithSlotTableAt(haystack, digitPos+1, nfa.SearchModeFind)
+		}
 		pos = digitPos + 1
 		if e.digitRunSkipSafe {
 			for pos < len(haystack) && haystack[pos] >= '0' && haystack[pos] <= '9' {
